@@ -218,59 +218,69 @@ def run():
     print(f"[*] Checking for TLS traffic on these ports: {server_ports}")
 
     for ts, buf in pcap_reader:
-        packet = Packet(buf, ts)
+        # a packet that cannot be parsed or handled must not abort the run
+        try:
+            packet = Packet(buf, ts)
 
-        if ts == -1:
-            keylog.extend(keylog_reader.get_keys_from_string(buf.decode('ascii')))  # adds secrets from decryption secret block to keylog
-            continue
-
-        if packet.tcp_packet:
-            if len(packet.tls_data) == 0:
+            if ts == -1:
+                keylog.extend(keylog_reader.get_keys_from_string(buf.decode('ascii')))  # adds secrets from decryption secret block to keylog
                 continue
 
-            if not args.checksumTest:
-                checksum_test = True
-            else:
-                checksum_test = calculate_checksum_tcp(packet)
+            if packet.tcp_packet:
+                if len(packet.tls_data) == 0:
+                    continue
 
-            if not checksum_test:
-                logging.info("")
-                logging.info(f"bad checksum discarded Packet {packet.get_params()}")
-                logging.info("")
-            if packet.tcp_packet and checksum_test:
-                handle_packet(packet, args, keylog, sessions, portmap, keep_original_ports, exp_meta=metadata)
+                if not args.checksumTest:
+                    checksum_test = True
+                else:
+                    checksum_test = calculate_checksum_tcp(packet)
+
+                if not checksum_test:
+                    logging.info("")
+                    logging.info(f"bad checksum discarded Packet {packet.get_params()}")
+                    logging.info("")
+                if packet.tcp_packet and checksum_test:
+                    handle_packet(packet, args, keylog, sessions, portmap, keep_original_ports, exp_meta=metadata)
 
 
-        elif packet.udp_packet:
-            if len(packet.tls_data) == 0:
-                continue
+            elif packet.udp_packet:
+                if len(packet.tls_data) == 0:
+                    continue
 
-            if not args.checksumTest:
-                checksum_test = True
-            else:
-                checksum_test = calculate_checksum_udp(packet)
+                if not args.checksumTest:
+                    checksum_test = True
+                else:
+                    checksum_test = calculate_checksum_udp(packet)
 
-            if not checksum_test:
-                logging.info("")
-                logging.info(f"bad checksum discarded Packet {packet.get_params()}")
-                logging.info("")
-                continue
+                if not checksum_test:
+                    logging.info("")
+                    logging.info(f"bad checksum discarded Packet {packet.get_params()}")
+                    logging.info("")
+                    continue
 
-            # using fixed bit for differentiating between QUIC and D-TLS (For further information take a look at RFC 9287)
-            if ((int(packet.tls_data[0]) & 0x40) >> 6) == 1 or args.greasy:
-                # QUIC Packet
-                handle_quic_packet(packet, keylog, quic_sessions, portmap, keep_original_ports)
+                # using fixed bit for differentiating between QUIC and D-TLS (For further information take a look at RFC 9287)
+                if ((int(packet.tls_data[0]) & 0x40) >> 6) == 1 or args.greasy:
+                    # QUIC Packet
+                    handle_quic_packet(packet, keylog, quic_sessions, portmap, keep_original_ports)
 
-            else:
-                # D-TLS Packet
-                pass
+                else:
+                    # D-TLS Packet
+                    pass
+        except Exception as e:
+            logging.warning(f"Could not process packet: {e}")
 
     file.close()
     all_decrypted_sessions = []
     for session in sessions:
-        all_decrypted_sessions.extend(session.decrypt())
+        try:
+            all_decrypted_sessions.extend(session.decrypt())
+        except Exception as e:
+            logging.warning(f"Could not export session: {e}")
     for quic_session in quic_sessions:
-        all_decrypted_sessions.extend(quic_session.build_output(metadata))
+        try:
+            all_decrypted_sessions.extend(quic_session.build_output(metadata))
+        except Exception as e:
+            logging.warning(f"Could not export QUIC session: {e}")
 
     file = open(args.outfile, "wb")
 
